@@ -168,7 +168,7 @@ theorem cleanup_kept (c : Cfg) (hist : List Arr) (s : St) (a : Arr) (hinv : Inv 
     have := fold_expire_kept (fun e => expirable c.window (hist ++ [a]) e = true) H (a.ev.ts - c.window)
       (fun e he => expirable_last _ _ _ _ (by simpa using he))
       (s.queue.filter fun q => decide (q.1 ≤ a.ev.ts)) s.bufs hb (src, key)
-    simpa [H, hs] using this
+    simpa [H, hs, gcFold] using this
 
 theorem add_inv (c : Cfg) (hist : List Arr) (s : St) (a : Arr) (hinv : Inv c hist s)
     (hcap : capHit c s a = false) : Inv c (hist ++ [a]) (addEvent c s a).1 := by
@@ -236,5 +236,31 @@ theorem correlate_eq_spec (c : Cfg) (hist : List Arr) (s : St) (key : Nat) (t : 
   intro e he hp
   have := hfresh src hs e he (by simpa using hp)
   simp [this]
+
+/-! ### the heap's pop order cannot matter -/
+
+def iter (f : List Ev → List Ev) : Nat → List Ev → List Ev
+  | 0, a => a
+  | n + 1, a => iter f n (f a)
+
+/-- after the GC loop, the vector of `(source, key)` is the per-entry action iterated once per popped
+entry of that `(source, key)` — whatever the action and whatever the order of the entries -/
+theorem gcFold_get (act : List Ev → List Ev) (qs : List (Int × Nat × Nat)) :
+    ∀ (b : List (SK × List Ev)) (sk : SK),
+      get (gcFold act qs b) sk = iter act (qs.countP fun q => (q.2.1, q.2.2) = sk) (get b sk) := by
+  induction qs with
+  | nil => intro b sk; rfl
+  | cons q rest ih =>
+    intro b sk
+    simp only [gcFold, List.foldl_cons] at ih ⊢
+    rw [ih, get_set, List.countP_cons]
+    by_cases h : sk = (q.2.1, q.2.2)
+    · subst h; simp [iter]
+    · have h' : ¬ ((q.2.1, q.2.2) = sk) := fun e => h e.symm
+      simp [h, h']
+
+theorem gcFold_perm (act : List Ev → List Ev) (qs qs' : List (Int × Nat × Nat)) (hp : qs.Perm qs')
+    (b : List (SK × List Ev)) (sk : SK) : get (gcFold act qs b) sk = get (gcFold act qs' b) sk := by
+  rw [gcFold_get, gcFold_get, hp.countP_eq]
 
 end Varpulis.Join
